@@ -247,6 +247,52 @@ Proof.
     try (vm_compute; repeat constructor).
 Qed.
 
+(* First sentence at the level of the factory: for EVERY accepted name, key and IV (block
+   ciphers: IV at least one block; salsa20; none) an instance made by NewCrypt encrypts any
+   list of messages, of any lengths incl. 0, and an equally made instance (here: the same
+   model value, instances are determined by name, key, iv) decrypts ANY selection of the
+   ciphertexts in any order to exactly the selected messages; lengths are unchanged *)
+Theorem c16_instance_roundtrip : forall BC KS name key iv i (ms : list (list N)) (sel : list nat),
+  new_crypt name key iv = Some i ->
+  (forall c k iv' cr, i = IBlock c k iv' cr -> cid_bs c <= length iv) ->
+  exists cts i1 pts i2,
+    irun BC KS i (map Enc ms) = Some (cts, i1) /\
+    irun BC KS i (map (fun j => Dec (nth j cts [])) sel) = Some (pts, i2) /\
+    pts = map (fun j => nth j ms []) sel /\ map (@length N) cts = map (@length N) ms.
+Proof.
+  intros BC KS name key iv i ms sel H Hiv.
+  exact (inst_roundtrip BC KS i ms sel (new_crypt_usable name key iv i H Hiv)).
+Qed.
+Print Assumptions c16_instance_roundtrip.
+
+(* the exported constructors called directly (NewAESCFB, NewTripleDES, NewSM4, NewTwofish,
+   NewXTEA): the whole key keys the cipher, and the instance is CFB with the first IV block *)
+Theorem c16_direct_constructors : forall BC KS ctor key iv c k iv' cr,
+  new_direct ctor key iv = Some (IBlock c k iv' cr) -> cid_bs c <= length iv ->
+  k = key /\ iv' = iv /\
+  forall ops, exists i',
+    irun BC KS (IBlock c k iv' cr) ops = Some (map (cfb_op (cid_bs c) (BC c key) iv) ops, i').
+Proof. exact direct_is_cfb. Qed.
+Print Assumptions c16_direct_constructors.
+
+(* dst <> src: from a window of one buffer into a window of another; the source buffer and
+   everything outside the destination window are unchanged.  (The model gives the separate
+   destination the same bytes as the in-place call by definition; that the Go code, which
+   re-reads dst for the feedback, agrees is established by the correspondence classes.) *)
+Theorem c16_frame_separate : forall bsz E iv s off n doff,
+  supported bsz -> bsz <= length iv -> cr_ok bsz (inst_cr s) ->
+  off + n <= length (mem1 s) -> doff + n <= length (mem2 s) ->
+  (exists s', bstep bsz E iv s (BEncTo off n doff) = Some s' /\
+     mem1 s' = mem1 s /\ length (mem2 s') = length (mem2 s) /\
+     firstn doff (mem2 s') = firstn doff (mem2 s) /\ skipn (doff + n) (mem2 s') = skipn (doff + n) (mem2 s) /\
+     rd doff n (mem2 s') = cfb_enc bsz E (firstn bsz iv) (rd off n (mem1 s)) /\ cr_ok bsz (inst_cr s')) /\
+  (exists s', bstep bsz E iv s (BDecTo off n doff) = Some s' /\
+     mem1 s' = mem1 s /\ length (mem2 s') = length (mem2 s) /\
+     firstn doff (mem2 s') = firstn doff (mem2 s) /\ skipn (doff + n) (mem2 s') = skipn (doff + n) (mem2 s) /\
+     rd doff n (mem2 s') = cfb_dec bsz E (firstn bsz iv) (rd off n (mem1 s)) /\ cr_ok bsz (inst_cr s')).
+Proof. exact bstep_to_frame. Qed.
+Print Assumptions c16_frame_separate.
+
 (* ---- source tie: the tail helper xorBytes, regenerated from x/cipher/block.go on every run ---- *)
 From Coq Require Import ZArith.
 From FV Require Import Generated.CipherXor C16.Source.
